@@ -15,7 +15,8 @@ unsigned char in_file[NB], in_len;
 static VFILE src;
 static VFILE* vf_open_hook(const char* name, const char* mode) { (void)name; (void)mode; return &src; }
 
-/* dynstr.c is small and real (unit); realloc must not be needed at these sizes */
+/* dynstr.c is real (unit) except reallocation, which must not be needed at these sizes */
+int as_dynstr_realloc(as_dynstr_t* p_str, size_t new_capacity) { (void)p_str; (void)new_capacity; CHECK(0, "no reallocation of the line buffer at these sizes"); return 0; }
 
 void harness(void)
 {
